@@ -222,7 +222,7 @@ PROPS = {
                 kh("c12_decoders_never_panic_len3", "... 3-byte records", "all contents, length 3", K_STUBS_TRACING + ["rmp_serde::from_slice -> Err"]),
                 kh("c12_decoders_never_panic_len4", "... 4-byte records", "all contents, length 4", K_STUBS_TRACING + ["rmp_serde::from_slice -> Err"]),
                 kh("c12_decoders_never_panic_len8", "... 8-byte records", "all contents, length 8", K_STUBS_TRACING + ["rmp_serde::from_slice -> Err"], only="thorough"),
-                kh("c12_decoders_never_panic_len16", "... 16-byte records", "all contents, length 16", K_STUBS_TRACING + ["rmp_serde::from_slice -> Err"], only="thorough"),
+                kh("c12_decoders_never_panic_sixteen_bytes", "... 16-byte records", "all contents, length 16", K_STUBS_TRACING + ["rmp_serde::from_slice -> Err"], only="thorough"),
             ]},
         ],
         "assumptions": K_ASSUMPTIONS + ["rmp_serde::from_slice is stubbed to fail in the slicing harnesses: serde-derive + rmp decoding of symbolic bytes is out of CBMC's reach (measured > 15 min for 3 bytes)"],
